@@ -66,3 +66,45 @@ Definition use_in_calculations {E} (g : grp E) : bool := g_titratable g || (g_is
 Definition key_out (k : reskey) : list (list Z) := let '(c, n, i) := k in [codes c; [n]; codes i].
 Definition res_out (r : result (list reskey)) : list (list Z) :=
   match r with Ok l => [1%Z] :: flat_map key_out l | Err _ => [[0%Z]] end.
+
+(* ------------------------------------------------------------------------------------------------------------------------
+   The life of the titration flags of one group, as far as a disulfide bridge is concerned (C11):
+     Group.__init__            titratable := False
+     Group.setup               titratable := model_pka_set and not atom.cysteine_bridge ; exclude_cys_from_results := False
+     ConformationContainer.init_group (after setup)      the --titrate_only restriction above
+     Group.clone               copies the flags
+     BondMaker._find_bonds_for_atoms                      atom.cysteine_bridge := True   (never reset)
+   The inventory gen/Inventory_gen.v (flag_writes) lists EVERY assignment to these attributes in the source; proofs/TitrateProofs.v
+   shows that each is one of the operations below. *)
+Inductive flag_op := OpSetup (model_pka_set : bool) | OpRestrict (l : option (list reskey)) | OpClone | OpBridge.
+Definition flag_state (E : Type) := (bool * grp E)%type.      (* atom.cysteine_bridge, the group's flags *)
+Definition flag_step {E} (st : flag_state E) (o : flag_op) : flag_state E :=
+  let '(bridge, g) := st in
+  match o with
+  | OpSetup mps => (bridge, mk_grp (g_key g) (mps && negb bridge) (g_is_cys g) false (g_env g))
+  | OpRestrict l => (bridge, init_group l g)
+  | OpClone => (bridge, mk_grp (g_key g) (g_titratable g) (g_is_cys g) (g_excl g) (g_env g))
+  | OpBridge => (true, g)
+  end.
+Definition flag_run {E} (st : flag_state E) (ops : list flag_op) : flag_state E := fold_left flag_step ops st.
+(* Group.__init__ *)
+Definition flag_init {E} (k : reskey) (is_cys bridge : bool) (env : E) : flag_state E := (bridge, mk_grp k false is_cys false env).
+
+(* classification of the source's assignments (rows of Inventory_gen.flag_writes) *)
+Definition write_row := (string * string * string * string * string * string)%type.
+Definition row_ok (r : write_row) : bool :=
+  let '(file, fn, attr, target, value, guard) := r in
+  if String.eqb attr "titratable" then
+    String.eqb value "False"                                                                             (* Group.__init__, Group.setup, init_group *)
+    || (String.eqb fn "Group.setup" && String.eqb value "True" && String.eqb guard "self.model_pka_set and (not self.atom.cysteine_bridge)")
+    || (String.eqb fn "Group.clone" && String.eqb target "res" && String.eqb value "self.titratable")
+  else if String.eqb attr "cysteine_bridge" then
+    String.eqb value "True"                                                                              (* set, never reset *)
+  else if String.eqb attr "exclude_cys_from_results" then
+    String.eqb value "False" || (String.eqb fn "Group.clone" && String.eqb value "self.exclude_cys_from_results")
+    || (String.eqb fn "ConformationContainer.init_group" && String.eqb value "True")
+  else if String.eqb attr "setattr" then String.eqb file "parameters.py"                                 (* parameter objects only *)
+  else false.
+(* the writes the model's operations stand for must all be present *)
+Definition has_row (rows : list write_row) (fn attr value : string) : bool :=
+  existsb (fun r => let '(_, f, a, _, v, _) := r in String.eqb f fn && String.eqb a attr && String.eqb v value) rows.
